@@ -65,6 +65,22 @@ fn view(text: &str, merged: bool) -> J {
     }
 }
 
+/// The information-set view: xml_parser::document + xml_info::XmlDocument::new, projected through the
+/// xml_info trait accessors.
+fn info_view(text: &str) -> J {
+    let r = guarded(|| match xml_parser::document(text) {
+        Ok((rest, tree)) => match xml_info::XmlDocument::new(&tree) {
+            Ok(doc) => json!({"parse": "ok", "rest": nchars(rest), "proj": project::project_info(&doc)}),
+            Err(_) => json!({"parse": "err", "rest": 0}),
+        },
+        Err(_) => json!({"parse": "err", "rest": 0}),
+    });
+    match r {
+        Ok(v) => v,
+        Err(msg) => json!({"parse": "panic", "rest": 0, "msg": msg}),
+    }
+}
+
 /// C04: print, re-parse, compare (library == and projection), re-print.
 fn round_trip(text: &str, proj1: &J) -> J {
     let r = guarded(|| {
@@ -122,6 +138,7 @@ fn replay(args: &[String]) -> i32 {
         let text = cps_to_string(&case["text"]);
         let raw = view(&text, false);
         let merged = view(&text, true);
+        let info = info_view(&text);
         let rt = if raw["parse"] == "ok" {
             round_trip(&text, &raw["proj"])
         } else {
@@ -141,15 +158,18 @@ fn replay(args: &[String]) -> i32 {
                 && accepted(&merged)
                 && project::canonical(&raw["proj"]) == exp
                 && project::canonical(&merged["proj"]) == exp
+                && accepted(&info)
+                && project::canonical(&info["proj"]) == exp
                 && rt_ok
         } else if !wf {
-            !accepted(&raw) && !accepted(&merged) && raw["parse"] != "panic" && merged["parse"] != "panic"
+            !accepted(&raw) && !accepted(&merged) && !accepted(&info)
+                && raw["parse"] != "panic" && merged["parse"] != "panic" && info["parse"] != "panic"
         } else {
             raw["parse"] != "panic" && merged["parse"] != "panic" && (!accepted(&raw) || rt_ok)
         };
         let mut ev = json!({"i": i, "toks": case["toks"], "style": case["style"], "text": case["text"],
                             "wf": case["wf"], "viol": case["viol"],
-                            "raw": raw, "merged": merged, "rt": rt, "fast": fast});
+                            "raw": raw, "merged": merged, "info": info, "rt": rt, "fast": fast});
         if let Some(src) = case.get("src") {
             ev["src"] = src.clone();
         }
